@@ -2,12 +2,16 @@
 C10 — inside-outside is exact on a single tree (model: `Likelihoods` packing and
 `BeliefPropagation.inside_pass / outside_pass` of tsdate/discrete.py, `Model/Discrete.lean`).
 
-Part 1 (this section): the packed triangular representation.  For every grid size `G`:
-the lower and upper packings are bijections between the triangle and `[0, G(G+1)/2)`, the
-`reduceat` row sums are the row sums of the unpacked matrices, and the `row_indices` gather is
-the transpose.
+Part 1: the packed triangular representation.  For every grid size `G`: the lower and upper
+packings are bijections between the triangle and `[0, G(G+1)/2)`, the `reduceat` row sums are the
+row sums of the unpacked matrices, and the `row_indices` gather is the transpose.
+Part 2: the inside pass (a fold over `groupby` groups that threads arrays) satisfies the order-free
+recursive equations, in any probability space.
+Part 3: on a single tree, in linear space, the returned marginal likelihood is the exhaustive sum
+`Spec/BruteForce.bruteZ` over all assignments of grid indices to the non-sample nodes.
 -/
-import TsdateVerif.Proofs.DiscreteRows
+import Mathlib.Algebra.Order.Field.Basic
+import TsdateVerif.Proofs.DiscreteFinal
 
 namespace Tsdate.C10
 open Tsdate Tsdate.Discrete
@@ -70,5 +74,85 @@ example : rowIndices 4 1 = [2, 4, 7] ∧ colIndices 4 = [0, 4, 7, 9] ∧
 
 example : msgLower (linOps (fun _ v => v)) 3 (1 : Rat) #[1, 2, 3] #[1, 1, 1, 1, 1, 1] = [1, 3, 6] := by
   decide +kernel
+
+/-! ## Part 2 — the inside pass satisfies the recursive equations -/
+
+/-- **`inside_pass` computes the recursive matrix definition, for every child-before-parent edge
+order** and every probability space.  For the model's final state and every non-fixed parent `u`
+with edge group `g`: `denominator[u]` is `max(val)` (standardised) or the identity, and
+`inside[u] = ratio(val, denominator[u])`, where `val = prior[u] ⊗ ⨂_{e ∈ g} message_e` and the messages are
+computed from the *final* inside rows of the children.  The processing order no longer appears, so
+any two orders satisfying `groupsOK` give the same result. -/
+theorem inside_spec {α : Type} [Inhabited α] (o : Ops α) (inp : Input α) (std : Bool)
+    (hok : groupsOK inp.fixed inp.numNodes (groupRuns (·.p) inp.edges) = true) :
+    ∀ g ∈ groupRuns (·.p) inp.edges, aget inp.fixed g.1 = false →
+      aget (insideLoop o inp std).denom g.1
+        = (if std then o.maxl (groupVal o inp (insideLoop o inp std).inside g) else o.one) ∧
+      aget (insideLoop o inp std).inside g.1
+        = ((groupVal o inp (insideLoop o inp std).inside g).map
+            (fun v => o.ratio v (aget (insideLoop o inp std).denom g.1))).toArray :=
+  insideFold_spec o inp std _ (insideInit o inp) (by simp [insideInit])
+    (by simpa [insideInit] using hok)
+
+/-- Each message in `val` is the triangular matrix–vector product of Part 1 (non-fixed child, table
+of the right size), so Part 2 is literally `inside[u][t] = prior[u][t] · Π_e Σ_{s ≤ t} inside[c_e][s] L_e[t,s] / d_u`
+in linear space. -/
+theorem inside_message_spec {α : Type} [Inhabited α] (o : Ops α) (inp : Input α)
+    (inside : Array (Array α)) (e : DEdge) (hf : aget inp.fixed e.c = false)
+    (hsz : (aget inp.lik e.id).size = triSize inp.G) :
+    edgeMsg o inp inside e
+      = (List.range inp.G).map (fun n => o.sum ((List.range (n + 1)).map
+          (fun s => o.combine (o.scale (aget inp.frac e.id) (aget (aget inside e.c) s))
+            (aget (aget inp.lik e.id) (lowerIdx n s))))) := by
+  unfold edgeMsg
+  rw [if_neg (by simp [hf])]
+  exact msgLower_spec o inp.G _ _ _ hsz
+
+/-! ## Part 3 — the marginal likelihood is the exact normaliser -/
+
+section
+variable {α : Type} [Field α] [LinearOrder α] [IsStrictOrderedRing α] [Inhabited α]
+
+theorem linOps_isLin (pow : α → α → α) (hpow : ∀ v, pow 1 v = v) : IsLinOps (linOps pow) where
+  one := rfl
+  combine := fun _ _ => rfl
+  ratio := fun _ _ => rfl
+  sum := fun l => List.sum_eq_foldl.symm
+  scale_one := hpow
+
+/-- **`inside_marginal`: the likelihood returned by the inside pass is the exact normalising
+constant of the discretised model.**  For every single-tree input (`singleTreeOK`: any shape incl.
+polytomies, any grid size, any node numbering whose edge order puts children first), any priors and
+likelihood tables, standardised or not, with all span fractions 1 (`v ** 1 = v`) and non-zero
+denominators (the code asserts this in the outside pass):
+`inside_pass(...)` = `Σ_x Π_u prior_u(x_u) · Π_e L_e(x_p, x_c)·[x_c ≤ x_p]`. -/
+theorem inside_marginal (pow : α → α → α) (hpow : ∀ v, pow 1 v = v) (inp : Input α) (std : Bool)
+    (hok : singleTreeOK inp = true)
+    (hfrac : ∀ e ∈ inp.edges, aget inp.frac e.id = 1)
+    (hroots : inp.roots = [(rootOf inp, 1)])
+    (hd : ∀ g ∈ groupRuns (·.p) inp.edges, aget (insidePass (linOps pow) inp std).1.denom g.1 ≠ 0) :
+    (insidePass (linOps pow) inp std).2 = bruteZ inp.toTreeModel :=
+  inside_marginal_lin (linOps pow) (linOps_isLin pow hpow) inp std hok hfrac hroots hd
+
+end
+
+/-! Non-vacuity: a three-leaf tree ((0,1)3,2)4 on a 2-point grid, tskit edge order. -/
+
+def exampleInput : Input Rat where
+  G := 2
+  numNodes := 5
+  fixed := #[true, true, true, false, false]
+  edges := [⟨0, 3, 0⟩, ⟨1, 3, 1⟩, ⟨2, 4, 2⟩, ⟨3, 4, 3⟩]
+  frac := #[1, 1, 1, 1]
+  lik := #[#[1, 2], #[1, 3], #[2, 1], #[1, 2, 3]]
+  prior := #[#[], #[], #[], #[1, 1], #[0, 1]]
+  roots := [(4, 1)]
+
+example : singleTreeOK exampleInput = true ∧ rootOf exampleInput = 4 ∧
+    groupRuns (·.p) exampleInput.edges
+      = [(3, [⟨0, 3, 0⟩, ⟨1, 3, 1⟩]), (4, [⟨2, 4, 2⟩, ⟨3, 4, 3⟩])] := by decide +kernel
+
+/-- the brute-force normaliser of the example (4 assignments, 1 excluded by the prior, 0 by order) -/
+example : bruteZ exampleInput.toTreeModel = 20 := by decide +kernel
 
 end Tsdate.C10
